@@ -140,7 +140,6 @@ func VH_C19_MapOrderIDs() {
 
 // C19 H1 for TTML: the value handed to the XML encoder is the same for every map order.
 func VH_C19_MapOrderTTML() {
-	vengineOnly()
 	ns := 1 + choose(vbound("styles", 2, 3))
 	nr := choose(vbound("regions+1", 2, 3))
 	s := vc19List(ns, nr)
@@ -150,6 +149,12 @@ func VH_C19_MapOrderTTML() {
 	e1 := s.WriteToTTML(&b1)
 	e2 := s.WriteToTTML(&b2)
 	vmaporder(false)
+	if vnative() {
+		// native run: the real encoder produced the documents
+		vassert(e1 == nil && e2 == nil, "C19 ttml write succeeds")
+		vassert(bytes.Equal(b1.Bytes(), b2.Bytes()), "C19 map-order: same list, same TTML document value")
+		return
+	}
 	vassert(e1 == nil && e2 == nil && len(vxmlCaptured) == 2, "C19 ttml write succeeds")
 	vassert(vdeepequal(vxmlCaptured[0], vxmlCaptured[1]), "C19 map-order: same list, same TTML document value")
 	vreach("end")
